@@ -679,8 +679,9 @@ class SharesManager(BaseManager):
         if not search_query.has_inclusion_terms():
             return [], []
 
-        # First round using the term map
-        include_terms = []
+        # First round using the term map: a set of candidate items per term, the
+        # items need to be in all of those sets
+        candidate_sets: list[set[SharedItem]] = []
         for term in search_query.include_terms:
             subterms = re.split(_QUERY_CLEAN_PATTERN, term)
             for subterm in subterms:
@@ -690,7 +691,7 @@ class SharesManager(BaseManager):
                 if subterm not in self._term_map:  # Optimization
                     return [], []
 
-                include_terms.append(subterm)
+                candidate_sets.append(set(self._term_map[subterm]))
 
         for term in search_query.wildcard_terms:
             subterms = re.split(_QUERY_CLEAN_PATTERN, term)
@@ -699,24 +700,28 @@ class SharesManager(BaseManager):
                     continue
 
                 if idx == 0:
-                    matching_terms = [
-                        map_term for map_term in self._term_map.keys()
-                        if map_term.endswith(subterm)
-                    ]
+                    # Items containing any of the words ending with the term
+                    matching_items: set[SharedItem] = set()
+                    for map_term, map_items in self._term_map.items():
+                        if map_term.endswith(subterm):
+                            matching_items |= set(map_items)
 
-                    if not matching_terms:  # Optimization
+                    if not matching_items:  # Optimization
                         return [], []
 
-                    include_terms.extend(matching_terms)
+                    candidate_sets.append(matching_items)
                 else:
                     if subterm not in self._term_map:  # Optimization
                         return [], []
 
-                    include_terms.append(subterm)
+                    candidate_sets.append(set(self._term_map[subterm]))
 
-        found_items = set(self._term_map[include_terms[0]])
-        for include_term in include_terms:
-            found_items &= set(self._term_map[include_term])
+        if not candidate_sets:
+            return [], []
+
+        found_items = candidate_sets[0]
+        for candidate_set in candidate_sets[1:]:
+            found_items &= candidate_set
 
         # Regular expressions on the remaining items
 
